@@ -872,5 +872,5 @@ func TestKnownPluginKeepAliveDecoder(t *testing.T) {
 }
 
 func TestHTTPFidelity(t *testing.T) {
-	fx.Run(t, fx.Spec[Case]{Prop: "C02", Name: "http_fidelity", Quick: 400, Thorough: 10000, Gen: gen, Run: run, Class: classify, Retry: true, Journal: true, ShrinkTime: "60s"})
+	fx.Run(t, fx.Spec[Case]{Prop: "C02", Name: "http_fidelity", Quick: 400, Thorough: 5000, Gen: gen, Run: run, Class: classify, Retry: true, Journal: true, ShrinkTime: "60s"})
 }
